@@ -2,8 +2,10 @@
 json_parser handles primitive json parsing. It doesn't handle unicode or
 numbers in scientific notation.
 """
-from insights.parsr import (Colon, Comma, EOF, Forward, Literal, LeftBracket,
-        LeftCurly, Number, RightBracket, RightCurly, QuotedString, WS)
+import string
+
+from insights.parsr import (Colon, Comma, EmptyQuotedString, EOF, Forward, Literal, LeftBracket,
+        LeftCurly, Number, RightBracket, RightCurly, WS)
 
 
 def loads(data):
@@ -19,10 +21,11 @@ JsonObject = Forward()
 TRUE = Literal("true", value=True)
 FALSE = Literal("false", value=False)
 NULL = Literal("null", value=None)
-SimpleValue = (Number | QuotedString | JsonObject | JsonArray | TRUE | FALSE | NULL)
+JsonString = EmptyQuotedString(string.printable)
+SimpleValue = (Number | JsonString | JsonObject | JsonArray | TRUE | FALSE | NULL)
 JsonValue = (WS >> SimpleValue << WS)
-Key = (QuotedString << Colon)
+Key = (JsonString << WS << Colon)
 KVPairs = (((WS >> Key) + JsonValue).sep_by(Comma))
-JsonArray <= (LeftBracket >> JsonValue.sep_by(Comma) << RightBracket)
-JsonObject <= (LeftCurly >> KVPairs.map(lambda res: dict((k, v) for (k, v) in res)) << RightCurly)
+JsonArray <= (LeftBracket >> WS >> JsonValue.sep_by(Comma) << RightBracket)
+JsonObject <= (LeftCurly >> WS >> KVPairs.map(lambda res: dict((k, v) for (k, v) in res)) << RightCurly)
 Top = JsonValue + EOF
